@@ -3,7 +3,7 @@ node) and independence (one symbolic mutation of either side is not observable t
 import copy
 
 import pyglove as pg
-from engine.chx import Assume, Violation, reach
+from engine.chx import Assume, Violation, reach, untraced, concretize
 from harness import treeops as T
 
 PROPERTY = 'C07'
@@ -154,7 +154,21 @@ def fidelity(kind, root, node, c):
   return None
 
 
+def _count_nodes(skel):
+  with untraced():
+    return len(T.nodes_of(SKELS[skel]((1, 2, 3, 4))))
+
+
 def h_fidelity(params, v0, v1, v2, v3, t, ck, sealed, acc_off, sc, sa):
+  """Selectors are solver decisions made concrete by branching; cloning and the oracle run natively."""
+  t = concretize(t, range(_count_nodes(params['skel'])))
+  ck, sc, sa = concretize(ck, range(len(CLONE_KINDS))), concretize(sc, range(4)), concretize(sa, range(4))
+  sealed, acc_off = bool(sealed), bool(acc_off)
+  with untraced():
+    return _fidelity_body(params, 1, 2, 3, 4, t, ck, sealed, acc_off, sc, sa)
+
+
+def _fidelity_body(params, v0, v1, v2, v3, t, ck, sealed, acc_off, sc, sa):
   v = (v0, v1, v2, v3)
   root, nodes, node = _setup(params, v, t, sealed, acc_off)
   if not 0 <= ck < len(CLONE_KINDS):
@@ -197,6 +211,23 @@ def h_fidelity(params, v0, v1, v2, v3, t, ck, sealed, acc_off, sc, sa):
 
 def h_independence(params, v0, v1, v2, v3, t, ck, side, t2, i, vk, w):
   """Clone, then one symbolic mutation on either side; the other side must not change."""
+  nn = _count_nodes(params['skel'])
+  # the cloned node: the root (quick) or any node (thorough); clone kind; mutated side
+  t = concretize(t, range(nn if params.get('any_node') else 1))
+  ck, side = concretize(ck, range(len(CLONE_KINDS))), bool(side)
+  # mutation target: lazily, only nodes the operation applies to (positions in the clone equal those in the original)
+  with untraced():
+    nodes = T.nodes_of(SKELS[params['skel']]((1, 2, 3, 4)))
+  t2 = concretize(t2, range(len(nodes)))
+  if not T.applicable(params['op'], nodes[t2], t2):
+    raise Assume()
+  n2 = T.fanout(nodes[t2])
+  i, vk = concretize(i, range(-n2 - 1, n2 + 2)), concretize(vk, (0, 1))
+  with untraced():
+    return _independence_body(params, 1, 2, 3, 4, t, ck, side, t2, i, vk, 50)
+
+
+def _independence_body(params, v0, v1, v2, v3, t, ck, side, t2, i, vk, w):
   v = (v0, v1, v2, v3)
   root, nodes, node = _setup(params, v, t, False, False)
   if not 0 <= ck < len(CLONE_KINDS):
@@ -247,7 +278,7 @@ def shards(tier, seed):
   iskels = ['list', 'dict', 'obj', 'typed'] if quick else ['list', 'dict', 'obj', 'mixed', 'flat', 'typed', 'partial', 'ref']
   for skel in iskels:
     for op in (IND_OPS if quick else T.MUTATING):
-      out.append(dict(name=f'indep:{skel}:{op}', fn='h_independence', params=dict(skel=skel, op=op), args=_IA,
+      out.append(dict(name=f'indep:{skel}:{op}', fn='h_independence', params=dict(skel=skel, op=op, any_node=not quick), args=_IA,
                       budget_s=b, per_path_s=15))
   return out
 
